@@ -237,6 +237,10 @@ def run_one(stack, c, op):
     if stack == "Client":
         r = cs.run_impl(c, ops, [], [], (), None, srv.feed, apply=(lambda cl, o: cl.stats(*o[1])) if op[0] == 18 else None)
         res, world = r[0][0], r[6]
+    elif stack == "HashClient":
+        from pymemcache.client.hash import HashClient
+        r = cs.run_impl(c, ops, [], [], (), lambda server, kw: HashClient([server], **kw), srv.feed)
+        res, world = r[0][0], r[6]
     else:
         from harness.props.C16 import run_pooled_peer
         rr, world = run_pooled_peer(c, ops, srv)
@@ -410,9 +414,11 @@ def search(ctx):
     found = []
     n = 0
     for c, op in grid(ctx):
-        for stack in ("Client", "PooledClient"):
+        for stack in ("Client", "PooledClient", "HashClient"):
             if stack == "PooledClient" and op[0] not in (1, 7, 8, 10, 18, 15):
                 continue            # the pooled wrapper matters for the multi-key clause (and hands on the words of stats)
+            if stack == "HashClient" and op[0] != 14:
+                continue            # HashClient's key-addressed forwarding is C16's; flush_all (no key: every server) is judged here
             n += 1
             why = judge(stack, c, op)
             if why:
